@@ -198,6 +198,7 @@ PROPS = {
         "bounds": _MT.BOUNDS[pid],
         "outside": _MT.OUTSIDE[pid],
         "assumptions": _MT.ASSUME,
+        "technique": _MT.TECHNIQUE[pid],
     } for pid in _MT.EXPLAIN},
     "C19": {
         "engine": "kani",
